@@ -8,7 +8,7 @@ use crate::wl::{self as gen_, asm};
 use crate::rng::{mix, tag, Rng};
 
 /// (family, weight, sections it uses with the main one first)
-pub const FAMILIES: &[(&str, u64)] = &[("aranges", 10), ("addr", 6), ("str", 4), ("pub", 6), ("line", 24), ("macros", 6)];
+pub const FAMILIES: &[(&str, u64)] = &[("aranges", 10), ("addr", 6), ("str", 4), ("pub", 6), ("line", 24), ("macros", 6), ("lists", 20)];
 
 pub fn families_for(prop: &str) -> Vec<(&'static str, u64)> {
     match prop {
@@ -24,6 +24,7 @@ pub fn main_section(family: &str) -> &'static str {
         "pub" => "debug_pubnames",
         "line" => "debug_line",
         "macros" => "debug_macinfo",
+        "lists" => "debug_rnglists",
         _ => "",
     }
 }
@@ -216,6 +217,51 @@ fn gen_family(rng: &mut Rng, c: &mut Case, fam: &str, be: bool) {
             }
             c.put("debug_macinfo", i);
             c.put("debug_macro", m);
+        }
+        "lists" => {
+            let asz = c.knob("addr_size", 8) as u8;
+            let d64 = rng.chance(1, 4);
+            let version = *rng.pick(&[2i64, 3, 4, 4, 5, 5, 5]);
+            c.set("d64", d64 as i64);
+            c.set("version", version);
+            c.set("dwo", rng.chance(1, 4) as i64);
+            c.set("base_address", match rng.below(4) { 0 => 0, 1 => rng.interesting() as i64, _ => rng.below(0x10000) as i64 });
+            c.set("addr_base", *rng.pick(&[0i64, 8, 8, 16]));
+            let (mut r, mut rl, mut l, mut ll, first) = asm::lists(rng, be, asz, d64, version as u16);
+            c.set("list_off", if version >= 5 { first as i64 } else { 0 });
+            note.push_str("asm");
+            if rng.chance(1, 12) && !be {
+                let fx = gen_::fixture("debug_ranges");
+                let a = (rng.usize(fx.len() / 16 - 64)) * 16;
+                r = fx[a..a + 512].to_vec();
+                let fx = gen_::fixture("debug_loc");
+                let a = rng.usize(fx.len() - 600);
+                l = fx[a..a + 512].to_vec();
+                note.push_str("+fixture");
+            }
+            if rng.chance(1, 12) {
+                r = gen_::noise(rng, 96);
+                rl = gen_::noise(rng, 96);
+                l = r.clone();
+                ll = rl.clone();
+                note.push_str("+noise");
+            }
+            let which = rng.below(4);
+            match which {
+                0 => gen_::corrupt_some(rng, &mut r, &[], &mut note),
+                1 => gen_::corrupt_some(rng, &mut rl, &[], &mut note),
+                2 => gen_::corrupt_some(rng, &mut l, &[], &mut note),
+                _ => gen_::corrupt_some(rng, &mut ll, &[], &mut note),
+            }
+            let mut ad = asm::addr(rng, be);
+            if rng.chance(1, 4) {
+                gen_::corrupt_some(rng, &mut ad, &[], &mut note);
+            }
+            c.put("debug_ranges", r);
+            c.put("debug_rnglists", rl);
+            c.put("debug_loc", l);
+            c.put("debug_loclists", ll);
+            c.put("debug_addr", ad);
         }
         _ => panic!("gen_family: {}", fam),
     }
